@@ -18,12 +18,12 @@ MANIFEST = {
             "drivers; too small U / L-subscript estimates must stop with the library's diagnostic. Inputs: patterns without "
             "zero-free diagonal, dense rows/columns, thresholds 0..1, random forced pivot orders (usepr), static and dynamic "
             "supernode storage, w/relax/maxsuper sweeps, 1..8 threads with seeded perturbation.",
-    "note": "PARTIAL by nature: the George & Ng bound is proved for the elimination model on patterns (any pivots, zero-free "
+    "note": "Glu_alloc and DynamicSetMap are RE-TRANSLATED from pmemory.c on every run (coq/AllocGen.v; every next-pointer may only be touched under its own lock, else the translator refuses) and proved equal to AllocModel.bump, with the blocks of any run consecutive, disjoint and inside the capacity (AllocTie.v; c05_source_alloc_*). PARTIAL by nature: the George & Ng bound is proved for the elimination model on patterns (any pivots, zero-free "
             "diagonal) and the row-merge counts are tied exactly to qrnzcnt's colcnt_h and to the returned L of every run "
             "(extracted rm_colcounts); the qrnzcnt algorithm itself (Gilbert-Ng-Peyton skeleton counting) is not modelled line by "
             "line. C memory safety in general is a runtime property (ASan samples it). Trusted: Coq kernel, extraction, hooks, "
             "AddressSanitizer.",
-    "technique": "Coq proof (allocator arithmetic, slot checker) + exact PresetMap correspondence + per-allocation slot monitor + ASan",
+    "technique": "Coq proof (allocator arithmetic proved equal to a translation of the C source regenerated on every run, slot checker) + exact PresetMap correspondence + per-allocation slot monitor + ASan",
 }
 
 
